@@ -1,19 +1,28 @@
 #!/bin/bash
-# Copies the pure-function sources of the diff/intersect/required tools out of
-# /repo's working tree into importable packages (package clause rewritten), so
-# that bulk enumeration runs in-process against exactly the code in /repo.
+# Copies the pure-function sources of the diff/intersect/required tools out of the
+# repository working tree ($VERIF_REPO, default /repo) into virtual packages
+# verif/toolcopy/{bkld,bkli,bklr} (package clause rewritten, fatal() panics), so that
+# bulk enumeration runs in-process against exactly the code in the tree being checked.
+# The copies live under <out dir> and are mapped into the module with `go build -overlay`.
+# usage: tools/gencopies.sh <out dir>      (writes <out dir>/overlay.json)
 set -e
 cd "$(dirname "$0")/.."
-gen=engine/toolcopy
+VERIF=$(pwd)
+REPO=${VERIF_REPO:-/repo}
+out=${1:-$VERIF/.work/toolcopy}
+mkdir -p "$out"
+entries=""
+put() { # <tool> <file name> <tmp content file>
+  mkdir -p "$out/$1"
+  if ! cmp -s "$3" "$out/$1/$2" 2>/dev/null; then mv "$3" "$out/$1/$2"; else rm -f "$3"; fi
+  entries="$entries\"$VERIF/engine/toolcopy/$1/$2\": \"$out/$1/$2\","
+}
 for t in bkld:diff bkli:intersect bklr:required; do
   tool=${t%%:*}; file=${t##*:}
-  mkdir -p $gen/$tool
-  src=/repo/cmd/$tool/$file.go
-  dst=$gen/$tool/$file.go
   tmp=$(mktemp)
-  sed -e "s/^package main\$/package $tool/" "$src" > "$tmp"
-  if ! cmp -s "$tmp" "$dst" 2>/dev/null; then mv "$tmp" "$dst"; else rm -f "$tmp"; fi
-  stub=$gen/$tool/stub.go
+  sed -e "s/^package main\$/package $tool/" "$REPO/cmd/$tool/$file.go" > "$tmp"
+  put $tool $file.go "$tmp"
+  tmp=$(mktemp)
   {
     echo "package $tool"
     echo
@@ -31,6 +40,7 @@ for t in bkld:diff bkli:intersect bklr:required; do
       bkli) echo "func Intersect(a, b any) (any, error) { return intersect(a, b) }" ;;
       bklr) echo "func Required(obj any) (any, error) { return required(obj) }" ;;
     esac
-  } > "$stub.tmp"
-  if ! cmp -s "$stub.tmp" "$stub" 2>/dev/null; then mv "$stub.tmp" "$stub"; else rm -f "$stub.tmp"; fi
+  } > "$tmp"
+  put $tool stub.go "$tmp"
 done
+echo "{\"Replace\": {${entries%,}}}" > "$out/overlay.json"
